@@ -34,7 +34,7 @@ func builtinJSONParse(call FunctionCall) Value {
 	}
 	if revive {
 		root := ctx.call.runtime.newObject()
-		root.put("", value, false)
+		root.defineProperty("", value, 0o111, false)
 		return builtinJSONReviveWalk(ctx, root, "")
 	}
 	return value
@@ -181,7 +181,7 @@ func builtinJSONStringify(call FunctionCall) Value {
 		}
 	}
 	holder := call.runtime.newObject()
-	holder.put("", call.Argument(0), false)
+	holder.defineProperty("", call.Argument(0), 0o111, false)
 	value, exists := builtinJSONStringifyWalk(ctx, "", holder)
 	if !exists {
 		return Value{}
